@@ -280,21 +280,23 @@ func c15Worker(ctx *core.Ctx) *core.Result {
 			}
 			for _, kind := range []string{"0:02:00", "0:01:00"} {
 				for _, where := range []string{"before", "inside", "behind-output", "after"} {
-					serial++
-					if !ctx.Mine(serial) {
-						continue
-					}
-					spec := sim.BannerSpec{Kind: kind, Form: "bare", Where: where, Offset: len(t.Text) / 2}
-					r := runDialogue(x.scr, sc, runOpts{dev: map[int]string{t.Point: sim.DevError}, banners: map[int]sim.BannerSpec{t.Point: spec}})
-					x.res.Evaluations++
-					x.res.Nontrivial++
-					x.res.Count("banner_with_rejected_command", 1)
-					c := &dcase{sc: sc, dev: map[int]string{t.Point: sim.DevError}, desc: fmt.Sprintf("rejected %q with banner %s/%s", t.Text, kind, where)}
-					if r.panicMsg != "" {
-						x.violation(c, r, "no-panic", "banner-panic", r.panicMsg)
-					} else if r.exit == 0 || r.saved > 0 {
-						x.violation(c, r, "write-only-if-accepted", "banner-hides-error:"+cmdClassAt(base, t.Point)+":"+where,
-							fmt.Sprintf("the device rejected %q; a %s banner arrived %s: exit status %d, write memory sent %d times", t.Text, kind, where, r.exit, r.saved))
+					for _, errKind := range []string{sim.DevError, sim.DevError1} {
+						serial++
+						if !ctx.Mine(serial) {
+							continue
+						}
+						spec := sim.BannerSpec{Kind: kind, Form: "bare", Where: where, Offset: len(t.Text) / 2}
+						r := runDialogue(x.scr, sc, runOpts{dev: map[int]string{t.Point: errKind}, banners: map[int]sim.BannerSpec{t.Point: spec}})
+						x.res.Evaluations++
+						x.res.Nontrivial++
+						x.res.Count("banner_with_rejected_command", 1)
+						c := &dcase{sc: sc, dev: map[int]string{t.Point: sim.DevError}, desc: fmt.Sprintf("rejected %q with banner %s/%s", t.Text, kind, where)}
+						if r.panicMsg != "" {
+							x.violation(c, r, "no-panic", "banner-panic", r.panicMsg)
+						} else if r.exit == 0 || r.saved > 0 {
+							x.violation(c, r, "write-only-if-accepted", "banner-hides-error:"+cmdClassAt(base, t.Point)+":"+where,
+								fmt.Sprintf("the device rejected %q; a %s banner arrived %s: exit status %d, write memory sent %d times", t.Text, kind, where, r.exit, r.saved))
+						}
 					}
 				}
 			}
@@ -466,7 +468,7 @@ func rearmSig(r *drun, p int, b sim.BannerSpec) string {
 func init() {
 	registerSharded("C15", c15Worker, func(tier string) core.Meta {
 		return core.Meta{ID: "C15", Level: "fault_enumeration",
-			Rule: "IOS simulator with reload scheduling, confirm dialogues, 'logging synchronous' prompts and a pending-reload flag; 4 scenarios (routes with a joined replace, ACL edit with a joined move, sub-mode block, routes on a device that answers the first reload command without the save question); (0) every change command rejected by the device while a banner arrives before / inside / behind the output / behind the prompt of the same answer must still end the run without write memory; (1) ordering invariant on the banner-free run and on every single-deviation run of C09's alphabet: every change line lies between a confirmed 'reload in' and 'reload cancel', 'write memory' only after the cancellation and only without a rejected command, no reload pending after success; (2) banners: kind {0:02:00, 0:01:00} x form {bare, followed by fresh prompt} x position {before the echo, after echo+output, inside the echo at every character offset} x every command sent inside the reload window; thorough: all ordered pairs of banners on different commands (inside: offsets 0, middle, end); oracle: same change lines in the same order as the banner-free run, exit 0, write memory confirmed, no reload pending, ordering invariant, and after a one-minute warning the next line sent is 'do reload in 2'; non-trivial = runs with a banner or a deviation",
+			Rule:        "IOS simulator with reload scheduling, confirm dialogues, 'logging synchronous' prompts and a pending-reload flag; 4 scenarios (routes with a joined replace, ACL edit with a joined move, sub-mode block, routes on a device that answers the first reload command without the save question); (0) every change command rejected by the device while a banner arrives before / inside / behind the output / behind the prompt of the same answer must still end the run without write memory; (1) ordering invariant on the banner-free run and on every single-deviation run of C09's alphabet: every change line lies between a confirmed 'reload in' and 'reload cancel', 'write memory' only after the cancellation and only without a rejected command, no reload pending after success; (2) banners: kind {0:02:00, 0:01:00} x form {bare, followed by fresh prompt} x position {before the echo, after echo+output, inside the echo at every character offset} x every command sent inside the reload window; thorough: all ordered pairs of banners on different commands (inside: offsets 0, middle, end); oracle: same change lines in the same order as the banner-free run, exit 0, write memory confirmed, no reload pending, ordering invariant, and after a one-minute warning the next line sent is 'do reload in 2'; non-trivial = runs with a banner or a deviation",
 			Assumptions: []string{"banner forms as in the repository's ios_simul.t (three empty lines, BEL, three-line box); the prepareDevice block (logging/vty settings) precedes the reload bracket by design and is not counted as change commands"},
 			Bounds:      map[string]any{"quick": "single banners at every offset", "thorough": "ordered pairs"},
 		}
